@@ -300,6 +300,19 @@ claim('C24',
       'N <= 2 (quick), <= 3 (thorough); 9 / 15 crystals.',
       'DESIGN.md 3/C24')
 
+claim('C26',
+      'Bounded symbolic verification on enumerated crystals / networks / shells and VacancyMediated configurations: for a transition '
+      'whose initial pair state has a SYMBOLIC lattice vector (|R_k| <= 1000; site indices and the vacancy jump taken are case-split) '
+      'z3 decides (QF_LIA) that a swing jump between two non-zero member states lies in EXACTLY ONE class of jumpnetwork_omega1(), '
+      'that an exchange (the jump lands on the solute) lies in exactly one class of jumpnetwork_omega2(), each with the vacancy\'s '
+      'displacement, and that after the pruning in VacancyMediated.generate every swing jump that starts or ends in the '
+      'thermodynamic range is still in exactly one class. Replayable constant obligations on the same run: every listed entry is a '
+      'genuine single jump / exchange with the right displacement, classes are closed under the space group and reversal, no entry '
+      'twice, nothing between two outer stars survives the pruning, star pairs match the classes.',
+      'No continuous input: the solver content is the unbounded lattice vector of the queried transition; reference sets are finite. '
+      '8 / 13 star sets (N <= 2, 3 in thorough) and 3 / 5 VacancyMediated configurations.',
+      'DESIGN.md 3/C26')
+
 na('C01', 'exact oracle is an infinite-state pair Markov chain reached through Brillouin-zone quadrature, LAPACK and hyp1f1/expi; '
           'agreement only to integration accuracy: no algebraic statement a solver can decide (DESIGN 5)')
 na('C06', 'identities hold only for the true lattice Green function of the omega0 network (numerical k-space integration); '
@@ -311,9 +324,8 @@ na('C09', 'compares two different concrete crystals through the numerical Green 
 na('C10', 'numerical inverse Fourier transform + special functions; an accuracy statement, not an algebraic identity (DESIGN 5)')
 na('C19', 'inputs are integer supercell matrices and atom lists whose length depends on them; reduce/minlattice are data-dependent '
           'recursive searches: making the matrix symbolic degenerates to enumeration of concrete crystals (DESIGN 5)')
-na('C26', 'as C24: concrete crystal + small integers only, nothing continuous or unbounded to quantify over (DESIGN 5)')
-na('C27', 'as C24: concrete supercells and occupations only; equivalence search is a finite enumeration (DESIGN 5)')
-na('C29', 'as C24: concrete crystal, network and supercell size; outputs are finite dictionaries of supercells (DESIGN 5)')
+na('C27', 'concrete supercells and occupations only; equivalence search is a finite enumeration (DESIGN 5)')
+na('C29', 'as C27: concrete crystal, network and supercell size; outputs are finite dictionaries of supercells (DESIGN 5)')
 na('C30', 'tar/JSON/Makefile text, package-resource loading and an external perl script: string formatting and I/O are the subject; '
           'onsager.automator does not even import here (pkg_resources missing) (DESIGN 5)')
 
